@@ -57,6 +57,28 @@ def cases(quick):
         C.append(("power", "x ** %r" % y, dict(x=onp.array([0.0, 0.0])), 0))
         if y > 0:
             C.append(("power", "np.power(x, y)", dict(x=onp.array([0.0, 2.0]), y=onp.array([y, y])), 1))
+    # smooth points that sit on a removable singularity or a value-dependent guard of the RULE (not of the function): the same
+    # bracket oracle decides them (both one-sided derivatives coincide)
+    C.append(("sinc", "np.sinc(x)", dict(x=onp.array([0.0, 0.5])), 0))
+    C.append(("sinc", "np.sinc(x)", dict(x=0.0), 0))
+    for v in ([0.0, 2.0, 3.0], [2.0, 0.0, 3.0], [0.0, 0.0, 3.0]):
+        C.append(("prod", "np.prod(x)", dict(x=onp.array(v)), 0))
+    C.append(("prod", "np.prod(x, axis=1)", dict(x=onp.array([[0.0, 2.0], [3.0, 4.0]])), 0))
+    C.append(("prod", "np.prod(x, axis=0, keepdims=True)", dict(x=onp.array([[0.0, 2.0], [3.0, 0.0]])), 0))
+    C.append(("det", "np.linalg.det(x)", dict(x=onp.array([[1.0, 2.0], [2.0, 4.0]])), 0))
+    C.append(("det", "np.linalg.det(x)", dict(x=onp.zeros((2, 2))), 0))
+    for name in ("sort", "msort"):
+        for v in ([1.0, 1.0, 2.0], [2.0, 1.0, 2.0]):
+            if name == "sort":
+                C.append((name, "np.sort(x)", dict(x=onp.array(v)), 0))
+    C.append(("square", "np.square(x)", dict(x=onp.array([0.0, 1.0])), 0))
+    C.append(("multiply", "x * x * x", dict(x=onp.array([0.0, 1.0])), 0))
+    C.append(("divide", "x / (1.0 + x * x)", dict(x=onp.array([0.0, 1.0])), 0))
+    C.append(("arctan2", "np.arctan2(x, y)", dict(x=onp.array([0.0, 1.0]), y=onp.array([1.0, 0.0])), 0))
+    C.append(("logaddexp", "np.logaddexp(x, y)", dict(x=onp.array([1.0, 800.0]), y=onp.array([1.0, 800.0])), 0))
+    C.append(("tanh", "np.tanh(x)", dict(x=onp.array([0.0, 400.0])), 0))
+    C.append(("var", "np.var(x)", dict(x=onp.array([1.0, 1.0, 1.0])), 0))
+    C.append(("mean", "np.mean(x)", dict(x=onp.array([0.0])), 0))
     return C
 
 
